@@ -120,6 +120,12 @@ def cases(tier, inst):
                     for r in range(1, nf + 1):
                         for fs in itertools.combinations(range(nf), r):
                             yield ("freshhier", shape, deco_t, before, "kw", fs)
+    # (i) the supplied domain is itself a symbolic expression: another variable, or another query (its solutions)
+    for outer in ("Base", "Sub", "USub", "Hand"):
+        for inner in ("Base", "Sub"):
+            for how in ("from_query", "from_var", "from_letvar", "let_query", "from_query_cond"):
+                for constrained in (False, True):
+                    yield ("exprdom", outer, inner, how, constrained)
     # (e) one From object shared by two declarations
     for c1, c2 in (("Base", "Base"), ("Base", "Sub"), ("Sub", "Base"), ("Hand", "Base"), ("Base", "USub")):
         for join in ("none", "k"):
@@ -237,6 +243,37 @@ def run_freshhier(case, inst):
     exp = [o for o in dom if isinstance(o, T) and all(getattr(o, f) == v for f, v in given.items())]
     lab_ = lambda o: f"{type(o).__name__}(" + ", ".join(f"{f}={getattr(o, f)}" for f in tf if hasattr(o, f)) + ")"   # noqa: E731
     return (got if is_exc(got) else [(lab_(o), dom.index(o)) for o in got]), [(lab_(o), dom.index(o)) for o in exp], len(dom)
+
+
+def run_exprdom(case, inst):
+    _, outer, inner, how, constrained = case
+    from entity_query_language import an, entity, let, symbolic_mode, From
+    world = build_world(WSPEC, inst)
+    dm = world["DM"]
+    T, P = W.CLASSES[outer], W.CLASSES[inner]
+    kw = {"k": inst.v(1)} if constrained else {}
+    try:
+        with symbolic_mode():
+            if how == "from_query":
+                q = an(entity(T(From(an(entity(P(From(dm))))), **kw)))
+            elif how == "from_query_cond":
+                pv = P(From(dm))
+                q = an(entity(T(From(an(entity(pv, pv.v >= inst.v(2)))), **kw)))
+            elif how == "from_var":
+                q = an(entity(T(From(P(From(dm))), **kw)))
+            elif how == "from_letvar":
+                q = an(entity(T(From(let(P, dm)), **kw)))
+            else:
+                tv = let(T, an(entity(let(P, dm))))
+                q = an(entity(tv, tv.k == inst.v(1))) if constrained else an(entity(tv))
+        got = list(q.evaluate())
+        again = list(q.evaluate())
+    except Exception as e:
+        got = again = exc_obs(e)
+    exp = [o for o in dm if isinstance(o, P) and isinstance(o, T) and (not constrained or o.k == inst.v(1))
+           and (how != "from_query_cond" or o.v >= inst.v(2))]
+    lab_ = lambda r: r if is_exc(r) else [repr(Q.norm(o)) for o in r]      # noqa: E731
+    return lab_(got), lab_(again), lab_(exp), len([o for o in dm if isinstance(o, P)])
 
 
 def lit_pairs(pairs):
@@ -378,6 +415,15 @@ def lab(kind, res):
 
 
 def run_case(case, inst):
+    if case[0] == "exprdom":
+        got, again, exp, n = run_isolated(lambda: run_exprdom(case, inst))
+        res = {"ok": got == exp and again == exp, "nontrivial": 0 < len(exp) < n, "transitions": 2,
+               "tags": ["family=exprdom", f"how={case[3]}"], "outcome": f"exprdom:{len(exp)}"}
+        if not res["ok"]:
+            bad = got if got != exp else again
+            k = f"exc:{bad[1]}" if is_exc(bad) else ("missing" if set(exp) - set(bad) else ("extra" if set(bad) - set(exp) else "order-or-count"))
+            res.update(sig=f"exprdom:{'' if got != exp else 'second-evaluation:'}{k}/{case[3]}", obs=bad, exp=exp)
+        return res
     if case[0] == "freshhier":
         got, exp, n = run_isolated(lambda: run_freshhier(case, inst))
         res = {"ok": got == exp, "nontrivial": 0 < len(exp) < n, "transitions": 2,
@@ -415,6 +461,16 @@ def run_case(case, inst):
 
 
 def describe(case, inst):
+    if case[0] == "exprdom":
+        _, outer, inner, how, constrained = case
+        kw = f", k={inst.v(1)}" if constrained else ""
+        src = {"from_query": f"q = an(entity({outer}(From(an(entity({inner}(From(DM))))){kw})))",
+               "from_query_cond": f"pv = {inner}(From(DM)); q = an(entity({outer}(From(an(entity(pv, pv.v >= {inst.v(2)}))){kw})))",
+               "from_var": f"q = an(entity({outer}(From({inner}(From(DM))){kw})))",
+               "from_letvar": f"q = an(entity({outer}(From(let({inner}, DM)){kw})))",
+               "let_query": f"tv = let({outer}, an(entity(let({inner}, DM)))); q = an(entity(tv" + (f", tv.k == {inst.v(1)}" if constrained else "") + "))"}[how]
+        return (Q.up_world(WSPEC, inst) + "\nwith symbolic_mode(): " + src + "\nresult = list(q.evaluate()); again = "
+                f"list(q.evaluate())   # expected (both): the members of DM that are instances of {inner} AND of {outer}" + (" with the field value" if constrained else ""))
     if case[0] == "freshhier":
         _, shape, deco_t, before, how, spec = case
         tf = HIER[shape][2]
